@@ -1,6 +1,6 @@
 (* C03 property theorems. This file contains only statements closed by
    [exact lemma] and Print Assumptions. *)
-From V Require Import Common.Base C03.Num C03.SpecOps C03.NumProofs.
+From V Require Import Common.Base C03.Num C03.SpecOps C03.NumProofs C03.Tree C03.Fold C03.MiniJS C03.TreeProofs C03.Refuted.
 
 (* js_ast.ToInt32 computes ECMA-262 ToInt32 for every float64 (finite dyadic of
    any magnitude, NaN, infinities), whatever Go's implementation-defined
@@ -28,3 +28,55 @@ Theorem compare_ucs2_is_spec :
     (go_compare_ucs2 a b =? 0) = zlist_eqb a b.
 Proof. intros a b. exact (conj (compare_ucs2_lt_all a b) (conj (compare_ucs2_gt_all a b) (compare_ucs2_eq_all a b))). Qed.
 Print Assumptions compare_ucs2_is_spec.
+
+(* FoldBinaryOperator's << >> >>> & | ^ on two numbers = the standard's
+   Number::leftShift, signedRightShift, unsignedRightShift, bitwiseAND/OR/XOR
+   (defined through ToInt32/ToUint32), for all float64 operands *)
+Theorem fold_int_ops_is_spec :
+  forall (cvt : num -> Z) (op : binop) (l r : num),
+    (forall x, - two31 <= cvt x < two31) -> wf_num l -> wf_num r ->
+    forall z, spec_int_op op l r = Some z -> fold_num_num cvt op l r = FNum (num_of_Z z).
+Proof. exact fold_int_ops_is_spec_all. Qed.
+Print Assumptions fold_int_ops_is_spec.
+
+(* ToBooleanWithSideEffects is sound over MiniJS, for every world (environments,
+   probe oracle, operator semantics): the truthiness it reports is the
+   truthiness of every normal completion, and NoSideEffects means normal
+   completion with an unchanged trace *)
+Theorem to_boolean_sound :
+  forall unbound lenv genv oracle un_sem bin_sem e tr tr' out b se,
+    wf_flags e ->
+    eval unbound lenv genv oracle un_sem bin_sem tr e = Some (tr', out) ->
+    to_boolean e = (b, se, true) ->
+    (forall v, out = Val v -> truthy v = b) /\ (se = true -> tr' = tr /\ exists v, out = Val v).
+Proof. exact to_boolean_sound_all. Qed.
+Print Assumptions to_boolean_sound.
+
+(* REFUTED (DESIGN 7-B): the special cases of math.Pow used by BinOpPow folding
+   are not those of Number::exponentiate: witness 1 ** NaN *)
+Theorem fold_pow_special_cases_refuted :
+  exists x y, wf_num x /\ wf_num y /\ ~ pow_special_cases_agree x y.
+Proof. exact fold_pow_special_cases_refuted_w. Qed.
+Print Assumptions fold_pow_special_cases_refuted.
+
+(* the part that holds: outside |base| = 1 with a NaN/infinite exponent, all
+   pairs of the 27-value boundary grid agree (finite domain: 27 x 27 pairs) *)
+Theorem fold_pow_special_cases_partial :
+  forallb (fun x => forallb (fun y =>
+    bad_family x y ||
+    match go_pow_special x y with
+    | Some r => match spec_exponentiate_special x y with Some r' => num_same r r' | None => true end
+    | None => true
+    end) pow_grid) pow_grid = true.
+Proof. exact fold_pow_special_cases_partial_grid. Qed.
+Print Assumptions fold_pow_special_cases_partial.
+
+(* REFUTED (DESIGN 7-A): SimplifyUnusedExpr does not preserve the effects of an
+   unused object literal with a computed key: ({[k]: 1}) with k a symbol
+   completes normally, the residue k + "" throws TypeError *)
+Theorem simplify_unused_object_key_refuted :
+  exists e, simplify_unused ub false e = UExpr (EBin BAdd (EId 1 false false) (EStr []))
+            /\ eval ub lenv_sym genv0 oracle0 un0 bin0 [] e = Some ([], Val VObjLit)
+            /\ ~ simplify_unused_preserves_effects e.
+Proof. exact simplify_unused_object_key_refuted_w. Qed.
+Print Assumptions simplify_unused_object_key_refuted.
